@@ -19,7 +19,6 @@ import "github.com/bradenaw/juniper/iterator"
 //            2: both symbolic (all 9 kind pairs).
 //verif:case C02 quick VerifTreeIter 0..1 1 -1 0..1 0..2 2 @variant=bf4 @unwind=600
 //verif:case C02 quick VerifTreeIter 0..1 2 1 0..1 0..2 0..1 @variant=bf4 @unwind=600
-//verif:case C02 quick VerifTreeIter 0..1 2 2 1 1..2 0 @variant=bf4 @unwind=600
 //verif:case C02 thorough VerifTreeIter 0..1 2 2..3 0..1 0..2 0..1 @variant=bf4 @unwind=600
 //verif:case C02 thorough VerifTreeIter 0..1 3 1 0..1 0..2 0 @variant=bf4 @unwind=600
 //verif:case C02 thorough VerifTreeIter 0..1 1 -1 0..1 0..2 0..1 @unwind=600
